@@ -10,3 +10,9 @@ class ResultIqProtocolEntity(IqProtocolEntity):
     def __init__(self, xmlns = None, _id = None, to = None, _from = None):
         super(ResultIqProtocolEntity, self).__init__(xmlns = xmlns, _id = _id, _type = "result", to = to, _from = _from)
 
+    @staticmethod
+    def fromProtocolTreeNode(node):
+        entity = IqProtocolEntity.fromProtocolTreeNode(node)
+        entity.__class__ = ResultIqProtocolEntity
+        return entity
+
